@@ -113,24 +113,33 @@ def run(prog, rep, tier, cfg):
     if pol is not None:
         X.value_from('K11', 'policy:worker_key_change_delay', pol, X.agg_field_atoms(pol, 'Policy', 'worker_key_change_delay'),
                      ['K:WORKER_KEY_CHANGE_DELAY'], 'default policy delay is the WORKER_KEY_CHANGE_DELAY constant')
+    beneficiary_gates(prog, rep, X)
+    # ---- owner change keeps beneficiary semantics: beneficiary follows only if it was the old owner
+    for cl in main_closure(prog, CO, lambda c: X.write_blocks(c, 'MinerInfo', 'owner')):
+        wb = X.write_blocks(cl, 'MinerInfo', 'beneficiary')
+        X.guard('K6b', 'change_owner:beneficiary-follows-only-if-owner', cl, wb, m_rel('eq', ['F:MinerInfo.beneficiary'], ['F:MinerInfo.owner'], True), 'info.beneficiary == info.owner')
+
+
+def beneficiary_gates(prog, rep, X, prefix=''):
+    """the hand-written caller gates of the accept-any method ChangeBeneficiary (also evaluated under C11)"""
     # ---- beneficiary change
     CB = X.fn('Actor::change_beneficiary', CR)
     cls = main_closure(prog, CB, lambda c: X.write_blocks(c, 'MinerInfo', 'beneficiary'))
-    rep.need('K6', 'change_beneficiary:closure', len(cls) == 1, 'one closure writing MinerInfo.beneficiary expected, found %d' % len(cls), X.loc(CB))
+    rep.need('K6', prefix + 'change_beneficiary:closure', len(cls) == 1, 'one closure writing MinerInfo.beneficiary expected, found %d' % len(cls), X.loc(CB))
     CALLER = ['C:MessageInfo::caller']
     NOMINEE = ['F:ChangeBeneficiaryParams.new_beneficiary']
     for cl in cls:
         wb = X.write_blocks(cl, 'MinerInfo', 'beneficiary') + X.write_blocks(cl, 'BeneficiaryTerm', 'quota') + X.write_blocks(cl, 'BeneficiaryTerm', 'expiration')
-        X.guard('K6b', 'change_beneficiary:approved-by-beneficiary', cl, wb, m_boolatoms(['F:PendingBeneficiaryChange.approved_by_beneficiary'], True), 'approved_by_beneficiary')
-        X.guard('K6b', 'change_beneficiary:approved-by-nominee', cl, wb, m_boolatoms(['F:PendingBeneficiaryChange.approved_by_nominee'], True), 'approved_by_nominee')
-        X.value_from('K10', 'change_beneficiary:value', cl, X.stmt_rvalue_atoms(cl, 'MinerInfo', 'beneficiary'), NOMINEE, 'value written to info.beneficiary')
-        X.value_from('K10', 'change_beneficiary:quota', cl, X.stmt_rvalue_atoms(cl, 'BeneficiaryTerm', 'quota'), ['F:PendingBeneficiaryChange.new_quota'], 'value written to beneficiary_term.quota')
-        X.value_from('K10', 'change_beneficiary:expiration', cl, X.stmt_rvalue_atoms(cl, 'BeneficiaryTerm', 'expiration'), ['F:PendingBeneficiaryChange.new_expiration'], 'value written to beneficiary_term.expiration')
+        X.guard('K6b', prefix + 'change_beneficiary:approved-by-beneficiary', cl, wb, m_boolatoms(['F:PendingBeneficiaryChange.approved_by_beneficiary'], True), 'approved_by_beneficiary')
+        X.guard('K6b', prefix + 'change_beneficiary:approved-by-nominee', cl, wb, m_boolatoms(['F:PendingBeneficiaryChange.approved_by_nominee'], True), 'approved_by_nominee')
+        X.value_from('K10', prefix + 'change_beneficiary:value', cl, X.stmt_rvalue_atoms(cl, 'MinerInfo', 'beneficiary'), NOMINEE, 'value written to info.beneficiary')
+        X.value_from('K10', prefix + 'change_beneficiary:quota', cl, X.stmt_rvalue_atoms(cl, 'BeneficiaryTerm', 'quota'), ['F:PendingBeneficiaryChange.new_quota'], 'value written to beneficiary_term.quota')
+        X.value_from('K10', prefix + 'change_beneficiary:expiration', cl, X.stmt_rvalue_atoms(cl, 'BeneficiaryTerm', 'expiration'), ['F:PendingBeneficiaryChange.new_expiration'], 'value written to beneficiary_term.expiration')
         # flag writes: each under its caller-equality guard
         fb = X.write_blocks(cl, 'PendingBeneficiaryChange', 'approved_by_beneficiary', kinds=('assign',))
-        rep.floor('K6b', 'approved_by_beneficiary_writes', len(fb), 2)
+        rep.floor('K6b', prefix + 'approved_by_beneficiary_writes', len(fb), 2)
         for i, bb in enumerate(sorted(fb)):
-            X.guard('K6b', 'change_beneficiary:flag-beneficiary#%d' % i, cl, [bb],
+            X.guard('K6b', prefix + 'change_beneficiary:flag-beneficiary#%d' % i, cl, [bb],
                     m_any(m_rel('eq', CALLER, ['F:MinerInfo.beneficiary'], True),
                           m_pred('is_zero', ['C:BeneficiaryTerm::available'], True)),
                     'caller == info.beneficiary (or current term exhausted, on the owner proposal arm)')
@@ -143,44 +152,40 @@ def run(prog, rep, tier, cfg):
                     # this write is on the exhaustion arm: must also be behind caller == owner
                     if not cl.dominates(c.bb, bb):
                         continue
-                    X.guard('K6b', 'change_beneficiary:auto-approve-only-by-owner', cl, [bb], m_rel('eq', CALLER, ['F:MinerInfo.owner'], True), 'caller == info.owner')
+                    X.guard('K6b', prefix + 'change_beneficiary:auto-approve-only-by-owner', cl, [bb], m_rel('eq', CALLER, ['F:MinerInfo.owner'], True), 'caller == info.owner')
         fn_ = X.write_blocks(cl, 'PendingBeneficiaryChange', 'approved_by_nominee', kinds=('assign',))
-        rep.floor('K6b', 'approved_by_nominee_writes', len(fn_), 1)
-        X.guard('K6b', 'change_beneficiary:flag-nominee', cl, fn_, m_rel('eq', CALLER, NOMINEE, True), 'caller == new_beneficiary')
+        rep.floor('K6b', prefix + 'approved_by_nominee_writes', len(fn_), 1)
+        X.guard('K6b', prefix + 'change_beneficiary:flag-nominee', cl, fn_, m_rel('eq', CALLER, NOMINEE, True), 'caller == new_beneficiary')
         # proposal: pending_beneficiary_term = Some(new proposal) only by the owner
         props = [(bb, a) for (bb, a) in X.stmt_rvalue_atoms(cl, 'MinerInfo', 'pending_beneficiary_term') if has_atom(a, 'C:PendingBeneficiaryChange::new')]
-        rep.need('K6', 'change_beneficiary:proposal-site', len(props) == 1, 'one proposal write expected, found %d' % len(props), X.loc(cl))
+        rep.need('K6', prefix + 'change_beneficiary:proposal-site', len(props) == 1, 'one proposal write expected, found %d' % len(props), X.loc(cl))
         if props:
-            X.guard('K6b', 'change_beneficiary:propose-by-owner', cl, [props[0][0]], m_rel('eq', CALLER, ['F:MinerInfo.owner'], True), 'caller == info.owner')
+            X.guard('K6b', prefix + 'change_beneficiary:propose-by-owner', cl, [props[0][0]], m_rel('eq', CALLER, ['F:MinerInfo.owner'], True), 'caller == info.owner')
         # confirmation arm (caller != owner): must name the same proposal and come from beneficiary or nominee
         not_owner = [m_rel('eq', CALLER, ['F:MinerInfo.owner'], True)]
         saves = [c.bb for c in cl.calls if callee_is('State::save_info')(c)]
-        X.guard('K6b', 'change_beneficiary:confirm:proposal-exists', cl, saves, m_variant(['F:MinerInfo.pending_beneficiary_term'], 1), 'a proposal exists', assume=not_owner)
-        X.guard('K6b', 'change_beneficiary:confirm:same-nominee', cl, saves, m_rel('ne', ['F:PendingBeneficiaryChange.new_beneficiary'], NOMINEE, False), 'proposal nominee == params nominee', assume=not_owner)
-        X.guard('K6b', 'change_beneficiary:confirm:same-quota', cl, saves, m_rel('ne', ['F:PendingBeneficiaryChange.new_quota'], ['F:ChangeBeneficiaryParams.new_quota'], False), 'proposal quota == params quota', assume=not_owner)
-        X.guard('K6b', 'change_beneficiary:confirm:same-expiration', cl, saves, m_rel('ne', ['F:PendingBeneficiaryChange.new_expiration'], ['F:ChangeBeneficiaryParams.new_expiration'], False), 'proposal expiration == params expiration', assume=not_owner)
-        X.guard_any('K6b', 'change_beneficiary:confirm:party', cl, saves,
+        X.guard('K6b', prefix + 'change_beneficiary:confirm:proposal-exists', cl, saves, m_variant(['F:MinerInfo.pending_beneficiary_term'], 1), 'a proposal exists', assume=not_owner)
+        X.guard('K6b', prefix + 'change_beneficiary:confirm:same-nominee', cl, saves, m_rel('ne', ['F:PendingBeneficiaryChange.new_beneficiary'], NOMINEE, False), 'proposal nominee == params nominee', assume=not_owner)
+        X.guard('K6b', prefix + 'change_beneficiary:confirm:same-quota', cl, saves, m_rel('ne', ['F:PendingBeneficiaryChange.new_quota'], ['F:ChangeBeneficiaryParams.new_quota'], False), 'proposal quota == params quota', assume=not_owner)
+        X.guard('K6b', prefix + 'change_beneficiary:confirm:same-expiration', cl, saves, m_rel('ne', ['F:PendingBeneficiaryChange.new_expiration'], ['F:ChangeBeneficiaryParams.new_expiration'], False), 'proposal expiration == params expiration', assume=not_owner)
+        X.guard_any('K6b', prefix + 'change_beneficiary:confirm:party', cl, saves,
                     [m_rel('ne', CALLER, ['F:MinerInfo.beneficiary'], False), m_rel('ne', CALLER, ['F:PendingBeneficiaryChange.new_beneficiary'], False)],
                     'caller is the current beneficiary or the proposed one', assume=not_owner)
         # proposal sanity (owner arm)
         if props:
-            X.guard('K6b', 'change_beneficiary:propose:quota-positive', cl, [props[0][0]], m_pred('is_positive', ['F:ChangeBeneficiaryParams.new_quota'], True), 'new_quota > 0 for a foreign beneficiary',
+            X.guard('K6b', prefix + 'change_beneficiary:propose:quota-positive', cl, [props[0][0]], m_pred('is_positive', ['F:ChangeBeneficiaryParams.new_quota'], True), 'new_quota > 0 for a foreign beneficiary',
                     assume=[m_rel('ne', NOMINEE, ['F:MinerInfo.owner'], False)])
-            X.guard('K6b', 'change_beneficiary:propose:owner-quota-zero', cl, [props[0][0]], m_pred('is_zero', ['F:ChangeBeneficiaryParams.new_quota'], True), 'quota must be zero when returning to owner',
+            X.guard('K6b', prefix + 'change_beneficiary:propose:owner-quota-zero', cl, [props[0][0]], m_pred('is_zero', ['F:ChangeBeneficiaryParams.new_quota'], True), 'quota must be zero when returning to owner',
                     assume=[m_rel('ne', NOMINEE, ['F:MinerInfo.owner'], True)])
-        X.followed_by('K7', 'change_beneficiary:saved', cl, X.write_blocks(cl, 'MinerInfo', 'beneficiary'), saves, 'beneficiary change is saved')
+        X.followed_by('K7', prefix + 'change_beneficiary:saved', cl, X.write_blocks(cl, 'MinerInfo', 'beneficiary'), saves, 'beneficiary change is saved')
         # a change of beneficiary resets the used quota: the comparison with the *old* beneficiary must be evaluated before the field is overwritten
         cmpb = X.find_conds(cl, m_rel('ne', NOMINEE, ['F:MinerInfo.beneficiary'], True))
         uq = X.write_blocks(cl, 'BeneficiaryTerm', 'used_quota')
-        rep.need('K6b', 'change_beneficiary:quota-reset-test', len(cmpb) == 1 and len(uq) >= 1, 'one comparison new_beneficiary != info.beneficiary guarding the used_quota reset expected', X.loc(cl))
+        rep.need('K6b', prefix + 'change_beneficiary:quota-reset-test', len(cmpb) == 1 and len(uq) >= 1, 'one comparison new_beneficiary != info.beneficiary guarding the used_quota reset expected', X.loc(cl))
         if len(cmpb) == 1 and uq:
-            X.guard('K6b', 'change_beneficiary:quota-reset-guard', cl, uq, m_rel('ne', NOMINEE, ['F:MinerInfo.beneficiary'], True), 'used_quota is reset only when the beneficiary changes')
-            X.precedes('K7', 'change_beneficiary:compare-before-overwrite', cl, [cmpb[0][0].bb], X.write_blocks(cl, 'MinerInfo', 'beneficiary'),
+            X.guard('K6b', prefix + 'change_beneficiary:quota-reset-guard', cl, uq, m_rel('ne', NOMINEE, ['F:MinerInfo.beneficiary'], True), 'used_quota is reset only when the beneficiary changes')
+            X.precedes('K7', prefix + 'change_beneficiary:compare-before-overwrite', cl, [cmpb[0][0].bb], X.write_blocks(cl, 'MinerInfo', 'beneficiary'),
                        'info.beneficiary is compared with the nominee before it is overwritten')
             c0, arm0 = cmpb[0]
-            X.followed_by('K7', 'change_beneficiary:quota-reset-when-changed', cl, [c0.arms[arm0]] if False else [c0.bb], uq + [c0.arms[not arm0]], 'when the beneficiary changes the used quota is reset')
-            X.value_from('K10', 'change_beneficiary:quota-reset-zero', cl, X.stmt_rvalue_atoms(cl, 'BeneficiaryTerm', 'used_quota', narrow=False), ['C:zero'], 'used_quota := 0')
-    # ---- owner change keeps beneficiary semantics: beneficiary follows only if it was the old owner
-    for cl in main_closure(prog, CO, lambda c: X.write_blocks(c, 'MinerInfo', 'owner')):
-        wb = X.write_blocks(cl, 'MinerInfo', 'beneficiary')
-        X.guard('K6b', 'change_owner:beneficiary-follows-only-if-owner', cl, wb, m_rel('eq', ['F:MinerInfo.beneficiary'], ['F:MinerInfo.owner'], True), 'info.beneficiary == info.owner')
+            X.followed_by('K7', prefix + 'change_beneficiary:quota-reset-when-changed', cl, [c0.arms[arm0]] if False else [c0.bb], uq + [c0.arms[not arm0]], 'when the beneficiary changes the used quota is reset')
+            X.value_from('K10', prefix + 'change_beneficiary:quota-reset-zero', cl, X.stmt_rvalue_atoms(cl, 'BeneficiaryTerm', 'used_quota', narrow=False), ['C:zero'], 'used_quota := 0')
